@@ -180,6 +180,12 @@ pub fn decode_page(b: &[u8], prof: &Profile) -> Value {
            "len": b.len(), "bad": bad})
 }
 
+/// page header only (long runs that do not decode elements)
+pub fn decode_page_header(b: &[u8]) -> Value {
+    json!({"id": u64_at(b, 0).unwrap_or(0), "ptype": b.get(8).cloned().unwrap_or(0), "count": u64_at(b, 16).unwrap_or(0),
+           "ov": u64_at(b, 24).unwrap_or(0), "used": 0, "len": b.len(), "bad": ""})
+}
+
 /// A whole file as the pinned layout describes it, starting from the header the pinned code
 /// would choose.  `pages`: decoded runs reachable from that header (tree, nested buckets, free
 /// list page); traversal is only used to select what to decode.
